@@ -17,7 +17,6 @@
 EXTENDS UPSeqSem, Json, IOUtils
 
 Corpus == ndJsonDeserialize(IOEnv.BATCH)
-MaxDepth == Corpus[1].depth
 
 VARIABLES cid, sq, sp, bad, plan, mon
 vars == <<cid, sq, sp, bad, plan, mon>>
@@ -82,7 +81,8 @@ Init == /\ cid \in DOMAIN Corpus
         /\ bad = FALSE /\ plan = <<>>
         /\ mon = MonInit(RP(cid), InitSt(RP(cid)))
 
-Next == /\ Len(plan) < MaxDepth
+Next == /\ Len(plan) < Corpus[cid].depth
+        /\ SmallSt(sq) /\ SmallSt(sp)
         /\ InitOK3(RQ(cid), InitSt(RQ(cid))) = "T"
         /\ InitOK3(RP(cid), InitSt(RP(cid))) # "?"
         /\ \E ga \in GActs(Corpus[cid].Q) :
